@@ -1,15 +1,18 @@
 #!/bin/bash
-# re-validates every seeded mutant against the current /repo: patch applies, the property's quick check reports a VIOLATION; writes seeded/STATUS.txt
+# re-validates every seeded mutant against the current /repo HEAD: the patch applies (in a private scratch worktree, /repo itself is not
+# touched) and the property's quick check reports a VIOLATION; writes seeded/STATUS.txt.   usage: tools/check_mutants.sh [id-prefix]
 cd "$(dirname "$(readlink -f "$0")")/.."
-out=seeded/STATUS.txt; : > $out
-for d in seeded/*/; do
+out=seeded/STATUS.txt; [ -n "${1:-}" ] && out=/dev/null || : > $out
+wt=$(mktemp -d /tmp/mutwt-XXXXXX); rmdir $wt; scratch=$(mktemp -d /tmp/mutout-XXXXXX)
+git -C /repo worktree add --detach $wt HEAD >/dev/null 2>&1 || { echo "worktree failed"; exit 9; }
+trap 'git -C /repo worktree remove --force $wt; rm -rf $scratch' EXIT
+for d in seeded/${1:-}*/; do
   id=$(basename $d); prop=${id%%-*}
   [ -f $d/patch.diff ] || continue
-  if [ -n "$(git -C /repo status --porcelain --untracked-files=no)" ]; then echo "repo not clean"; exit 9; fi
-  if ! git -C /repo apply --check $PWD/$d/patch.diff 2>/dev/null; then echo "$id patch-does-not-apply" | tee -a $out; continue; fi
-  git -C /repo apply $PWD/$d/patch.diff
-  res=$(./check $prop --tier quick 2>&1); rc=$?
-  git -C /repo checkout -- .
+  if ! git -C $wt apply --check $PWD/$d/patch.diff 2>/dev/null; then echo "$id patch-does-not-apply" | tee -a $out; continue; fi
+  git -C $wt apply $PWD/$d/patch.diff
+  res=$(EXABGP_SRC=$wt/src VERIF_OUT=$scratch ./check $prop --tier quick 2>&1); rc=$?
+  git -C $wt checkout -- .
   cls=$(echo "$res" | grep "^# violation class=" | head -1 | sed 's/^# violation class=\([^ ]*\).*/\1/')
   echo "$id exit=$rc $cls" | tee -a $out
 done
